@@ -106,6 +106,13 @@ type ZZDrive struct {
 // ZZDriveReader calls r.Read up to k times with solver-chosen destination
 // sizes in [minDst, maxDst], asserting the Reader contract at every call.
 func ZZDriveReader(r Reader, k, minDst, maxDst int, tag string) *ZZDrive {
+	return ZZDriveReaderOpt(r, k, minDst, maxDst, tag, "")
+}
+
+// ZZDriveReaderOpt is ZZDriveReader; if tailLabel is non-empty, the check
+// that destination rows beyond n are untouched is asserted under that label
+// (for readers with a recorded finding about exactly that).
+func ZZDriveReaderOpt(r Reader, k, minDst, maxDst int, tag, tailLabel string) *ZZDrive {
 	d := &ZZDrive{}
 	ctx := context.Background()
 	for c := 0; c < k; c++ {
@@ -125,7 +132,11 @@ func ZZDriveReader(r Reader, k, minDst, maxDst int, tag string) *ZZDrive {
 			// destination beyond n are not written by a successful read (the
 			// contents of dst after a failed read are unspecified)
 			if i < 1 || i >= 1+ln || (i >= 1+n && (err == nil || err == EOF)) {
-				zz.Assert(zz.And(bk[i] == ZZSentinel, bv[i] == ZZSentinel), "Read writes only the rows it reports")
+				label := "Read writes only the rows it reports"
+				if tailLabel != "" && i >= 1+n && i < 1+ln {
+					label = tailLabel
+				}
+				zz.Assert(zz.And(bk[i] == ZZSentinel, bv[i] == ZZSentinel), label)
 			}
 		}
 		d.Keys = append(d.Keys, bk[1:1+n]...)
